@@ -320,7 +320,8 @@ Definition convert_tokens (c : conv) (u : universe) (v : value) (var : xvar) : g
       match v with
       | VList _ (((VList _ _) :: _) as l) => concatM (fun x => convert_element c u x var) l
       | VList _ _ => convert_element c u v var
-      | VP (PStr _) | VP (PBytes _) => convert_element c u v var     (* value[0] is a 1-char str / an int *)
+      | VP (PStr _) | VP (PBytes _) | VP (PXml _ _) => convert_element c u v var
+          (* value[0] is a 1-char str / an int / a NamedTuple field (XmlDate & co) / a UserString slice *)
       | VMap _ => Err EKey                                            (* value[0] on a dict *)
       | _ => Err EType                                                (* value[0]: not subscriptable *)
       end
